@@ -42,8 +42,10 @@ Register(c) ==
 
 WriterFor(t) == IF handled[t] # "-" THEN handled[t] ELSE handled["object"]
 
+(* store_blob of a key that is already written (a second process that evaluated the same node  *)
+(* concurrently, or a direct call) replaces blob AND codec reference: the writer is the latest *)
 Store(k) ==
-  /\ CanOp /\ written[k] = "-"
+  /\ CanOp
   /\ written' = [written EXCEPT ![k] = WriterFor(TypeOf[k])]
   /\ Record("store", k, <<"writer", WriterFor(TypeOf[k])>>)
   /\ UNCHANGED <<handled, protocols>>
